@@ -286,9 +286,13 @@ TEMPL = {
     "resp": ["13", "17", "17 13", "P:resp", "17 P:body", "P:hdr 13", "P:hdr P:body"],
     "hdr": ["17", "P:hdr"],
     "body": ["13", "P:body"],
+    # (the last three: a PASTE directly after a parenthesised directive that was attached higher than where it was met;
+    #  its body fits the deeper context only, so the document and its inlined form must BOTH be rejected)
     "meth": ["15", "14 15", "4 15", "15b ( 17 13 )", "14b ( P:resp ) 15", "15b P:resp", "P:meth", "18 15", "14 15 P:meth",
+             "15 14b ( 13 ) P:hdr", "15 14b ( 13 ) P:body", "15 14b ( 13 ) 15b P:hdr",
              "15b ( P:resp ) 14", "P:meth 15", "14b P:resp 15b P:resp", "16 15", "14b 17 15b 13"],
-    "url": ["8 15", "9 14 15", "8 ( 15 ) 9 15", "8 P:meth", "P:url", "8 15 P:url", "P8 15", "8 P:meth 9 P:meth",
+    "url": ["8 15", "9 14 15", "8 ( 15 ) 9 15", "8 P:meth", "P:url", "8 15 P:url", "P8 15", "8 P:meth 9 P:meth", "8 15 9 ( 15 ) P:resp",
+            "8 15 9 ( 15 ) P:meth",
             "10 ( P:meth )", "P:url 11 15", "8 15 P9 15", "29 8 15"],
     "top": ["7 8 15", "19", "20", "7 P:url", "P:top", "1 2 3", "5 6", "7 ( 8 15 )", "P8 15", "7 8 P:meth 9 15", "19 P:top",
             "7 P:url 19", "P10 P:meth", "20 7 8 15", "7 8 15 P8 P:meth", "5 P:server", "1 P:info"],
